@@ -48,6 +48,8 @@ pub enum Dyn {
     Char(char),
     Str(String),
     CollectStr(String),
+    /// collect_str of a Display impl that emits char by char (`write_char`) / with fill padding
+    CollectChars(String, u8),
     Bytes(Vec<u8>),
     Seq(Vec<Dyn>),
     Tuple(Vec<Dyn>),
@@ -60,6 +62,48 @@ pub enum Dyn {
     NewtypeVariant(&'static str, Box<Dyn>),
     TupleVariant(&'static str, Vec<Dyn>),
     StructVariant(&'static str, Vec<(&'static str, Dyn)>),
+}
+
+/// a Display implementation that does not go through `write_str` with the whole text
+pub struct CharsDisplay<'a>(pub &'a str, pub u8);
+
+impl std::fmt::Display for CharsDisplay<'_> {
+    fn fmt(&self, f: &mut std::fmt::Formatter<'_>) -> std::fmt::Result {
+        use std::fmt::Write;
+        match self.1 % 3 {
+            0 => {
+                for c in self.0.chars() {
+                    f.write_char(c)?;
+                }
+                Ok(())
+            }
+            1 => {
+                // alternate pieces and single chars through format arguments
+                for (i, c) in self.0.chars().enumerate() {
+                    if i % 2 == 0 {
+                        write!(f, "{}", c)?;
+                    } else {
+                        let mut b = [0u8; 4];
+                        f.write_str(c.encode_utf8(&mut b))?;
+                    }
+                }
+                Ok(())
+            }
+            _ => {
+                // fill padding with the first char of the text (may be a control / quote)
+                let fill = self.0.chars().next().unwrap_or('\t');
+                for _ in 0..3 {
+                    f.write_char(fill)?;
+                }
+                f.write_str(self.0)
+            }
+        }
+    }
+}
+
+/// what `CharsDisplay` prints
+pub fn chars_display_text(x: &str, mode: u8) -> String {
+    format!("{}", CharsDisplay(x, mode))
 }
 
 impl Serialize for Key {
@@ -106,6 +150,7 @@ impl Serialize for Dyn {
             Dyn::Char(x) => s.serialize_char(*x),
             Dyn::Str(x) => s.serialize_str(x),
             Dyn::CollectStr(x) => s.collect_str(x),
+            Dyn::CollectChars(x, mode) => s.collect_str(&CharsDisplay(x, *mode)),
             Dyn::Bytes(x) => s.serialize_bytes(x),
             Dyn::Seq(v) => {
                 let mut q = s.serialize_seq(Some(v.len()))?;
@@ -304,7 +349,13 @@ pub fn gen_dyn(r: &mut Rng, o: &DynOpts, depth: usize) -> Dyn {
         14 => Dyn::F64(fix_nonfinite_f64(rand_f64(r), o.nonfinite)),
         15 => Dyn::Char(*r.pick(&['a', 'Z', '"', '\\', '\n', '\t', '\u{0}', '\u{1f}', '\u{7f}', 'é', '日', '😀', '\u{10ffff}', '/'])),
         16 | 17 => Dyn::Str(rand_text(r)),
-        18 => Dyn::CollectStr(rand_text(r)),
+        18 => {
+            if r.chance(1, 2) {
+                Dyn::CollectStr(rand_text(r))
+            } else {
+                Dyn::CollectChars(rand_text(r), r.next() as u8)
+            }
+        }
         19 => Dyn::Bytes((0..r.range(0, 40)).map(|_| r.next() as u8).collect()),
         20 => Dyn::UnitStruct,
         21 => Dyn::UnitVariant(*r.pick(&["A", "B", "quote\"", "nl\n", "é"])),
